@@ -2410,6 +2410,386 @@ KECK_CONFIGS = [{}, {'normalized': True}, {'with_spiders': False}, {'with_segmen
                 {'transmissions': True, 'normalized': True, 'with_segment_gaps': False}]
 
 
+# ---------------------------------------------------------------------------------------------
+# round 6: in-place history on ONE grid object — every in-place operation of Grid (scale, shift, rotate, reverse,
+# weights assignment, and pairs of them) between two evaluations on the SAME object, for every coordinate system x
+# storage (Cartesian/polar x regular/separated/unstructured), the first evaluation with a maker that converts the
+# grid (as_), one that does not, an explicit as_() or none at all.  Expected values: the point predicate at the
+# CURRENT points (fresh grid objects built from copies of the current coordinates; the Lean model at those points).
+
+INPLACE_REPS = ('cart-regular', 'cart-separated', 'cart-unstructured', 'polar-regular', 'polar-separated', 'polar-unstructured')
+INPLACE_OPS = ('none', 'scale', 'scale-neg', 'scale-xy', 'shift', 'rotate', 'reverse', 'weights-scalar', 'weights-array',
+               'weights-auto', 'reverse+shift', 'scale+reverse', 'rotate+reverse', 'reverse+reverse', 'shift+rotate')
+INPLACE_FIRST = ('none', 'disk', 'converting', 'as', 'same')
+INPLACE_PUPILS = (('make_magellan_aperture', {}), ('make_hst_aperture', {}), ('make_vlt_aperture', {}), ('make_keck_aperture', {}),
+                  ('make_gmt_aperture', {}), ('make_jwst_aperture', {}), ('make_hicat_aperture', {}), ('make_luvoir_b_aperture', {}))
+
+
+def gen_igrid(rng, rep, half=2.5):
+    """a grid of the named (system, storage) class as a JSON-able spec; dyadic Cartesian coordinates"""
+    if rep == 'cart-regular':
+        g = gen_grid_family(rng, str(rng.choice(['regular', 'regular-xdesc', 'regular-ydesc'])), nmax=7, half=half)
+        return [rep, g[1], g[2], g[3]]
+    if rep in ('cart-separated', 'cart-unstructured'):
+        g = gen_grid_family(rng, str(rng.choice(['sep-asc', 'sep-desc', 'sep-mixed', 'sep-permuted'])), nmax=7, half=half)
+        if rep == 'cart-separated':
+            return [rep, g[1], g[2]]
+        s = make_reps(g)
+        return [rep, [float(v) for v in s[1]], [float(v) for v in s[2]]]
+    if rep == 'polar-regular':
+        nr, nt = int(rng.integers(2, 6)), int(rng.integers(3, 8))
+        r0 = 0.0 if rng.random() < 0.3 else half * dyadic(rng, 0.0625, 0.5, 6)
+        dr = half * dyadic(rng, 0.125, 0.5, 6)
+        return [rep, [nr, nt], [dr, dyadic(rng, 0.25, 1, 5) * (1.0 if rng.random() < 0.7 else -1.0)], [r0, dyadic(rng, -3, 3, 4)]]
+    g = gen_grid_family(rng, 'polar-r0' if rng.random() < 0.3 else 'polar', nmax=7, half=half)
+    if rep == 'polar-separated':
+        return [rep, g[1], g[2]]
+    rs, ths = np.meshgrid(np.array(g[1], float), np.array(g[2], float))
+    return [rep, [float(v) for v in rs.ravel()], [float(v) for v in ths.ravel()]]
+
+
+def build_igrid(ispec):
+    import hcipy
+    rep = ispec[0]
+    cls = hcipy.CartesianGrid if rep.startswith('cart') else hcipy.PolarGrid
+    if rep.endswith('regular'):
+        return cls(hcipy.RegularCoords(np.array(ispec[2], float), np.array(ispec[1], int), np.array(ispec[3], float)))
+    if rep.endswith('separated'):
+        return cls(hcipy.SeparatedCoords([np.array(ispec[1], float), np.array(ispec[2], float)]))
+    return cls(hcipy.UnstructuredCoords([np.array(ispec[1], float), np.array(ispec[2], float)]))
+
+
+def clone_fresh(g):
+    """a brand-new grid object of the same class and storage built from COPIES of the current raw coordinates and
+    weights of `g` (nothing of g's history can travel along)"""
+    import hcipy
+    c = g.coords
+    if g.is_regular:
+        nc = hcipy.RegularCoords(np.array(c.delta, float).copy(), np.array(c.dims).copy(), np.array(c.zero, float).copy())
+    elif g.is_separated:
+        nc = hcipy.SeparatedCoords([np.array(a, float).copy() for a in c.separated_coords])
+    else:
+        nc = hcipy.UnstructuredCoords([np.array(a, float).copy() for a in c.coords])
+    w = g._weights
+    return type(g)(nc, None if w is None else (np.array(w).copy() if np.ndim(w) > 0 else w))
+
+
+def current_xy(g):
+    """the physical (Cartesian) positions of the current points, read from the coordinates themselves (never through as_)"""
+    a, b = np.array(g.coords[0], float).ravel(), np.array(g.coords[1], float).ravel()
+    if g.is_('polar'):
+        return a * np.cos(b), a * np.sin(b)
+    return a.copy(), b.copy()
+
+
+def gen_iops(rng, opname, polar, n, unit=1.0):
+    """the named in-place operation(s) with parameters, JSON-able"""
+    ops = []
+    for nm in opname.split('+'):
+        if nm == 'none':
+            continue
+        if nm == 'scale':
+            ops.append(['scale', float(rng.choice([0.5, 2.0, 1.5, 0.75]))])
+        elif nm == 'scale-neg':
+            ops.append(['scale', 0.5 if polar else -1.0 * float(rng.choice([1.0, 0.5, 2.0]))])
+        elif nm == 'scale-xy':
+            ops.append(['scale', 1.25 if polar else [float(rng.choice([-1.0, 0.5, 2.0])), float(rng.choice([1.0, -1.0, 1.5]))]])
+        elif nm == 'shift':
+            ops.append(['shift', [unit * dyadic(rng, -1, 1, 4), unit * dyadic(rng, -1, 1, 4)]])
+        elif nm == 'rotate':
+            ops.append(['rotate', _angle(rng)])
+        elif nm == 'reverse':
+            ops.append(['reverse'])
+        elif nm == 'weights-scalar':
+            ops.append(['weights', 0.25])
+        elif nm == 'weights-array':
+            ops.append(['weights', [float(v) for v in (1 + np.arange(n)) / 8.0]])
+        elif nm == 'weights-auto':
+            ops.append(['weights', None])
+        else:
+            raise MachineryError('unknown in-place operation %r' % (nm,))
+    return ops
+
+
+def apply_iop(g, op, px, py):
+    """apply one in-place operation to the grid object; -> the positions the points must have afterwards"""
+    k = op[0]
+    if k == 'scale':
+        s = op[1]
+        g.scale(np.array(s, float) if isinstance(s, list) else s)
+        sx, sy = (s if isinstance(s, list) else (s, s))
+        return px * sx, py * sy
+    if k == 'shift':
+        g.shift(np.array(op[1], float))
+        return px + op[1][0], py + op[1][1]
+    if k == 'rotate':
+        g.rotate(op[1])
+        c, s = np.cos(op[1]), np.sin(op[1])
+        return c * px - s * py, s * px + c * py
+    if k == 'reverse':
+        g.reverse()
+        return px[::-1].copy(), py[::-1].copy()
+    if k == 'weights':
+        w = op[1]
+        g.weights = np.array(w, float) if isinstance(w, list) else w
+        return px, py
+    raise MachineryError('unknown in-place operation %r' % (op,))
+
+
+def inplace_maker(bspec):
+    """-> (generator, model tokens or None, size, binary, label)"""
+    if bspec[0] == 'pupil':
+        import hcipy.aperture.realistic as rl
+        with warnings.catch_warnings():
+            warnings.simplefilter('ignore')
+            return getattr(rl, bspec[1])(**bspec[2]), None, PUPIL_DIAMETER[bspec[1]], True, 'pupil:' + bspec[1][5:]
+    gen, toks, size, binary = build(bspec)
+    return gen, toks, size, binary, root_kind(bspec)
+
+
+def run_inplace_case(ctx, ispec, first, ops, bspec, want_model=True, opname=None):
+    """One history on one grid object.  Returns (model request or None, checker)."""
+    rep = ispec[0]
+    opname = opname or '+'.join(o[0] for o in ops) or 'none'
+    case = {'kind': 'inplace', 'grid': ispec, 'first': first, 'ops': ops, 'shape': bspec, 'opname': opname}
+    gen_b, toks, size, binary, label = inplace_maker(bspec)
+    D = size if bspec[0] == 'pupil' else 1.0
+    g = build_igrid(ispec)
+    other = 'polar' if rep.startswith('cart') else 'cartesian'
+    init = (np.array(g.coords[0], float).ravel().copy(), np.array(g.coords[1], float).ravel().copy())
+    nothing = (None, lambda resp: None)
+    # --- the first use of the object
+    conv = ['ellipse', [2.0 * D, 1.0 * D], [0.5 * D, 0.25 * D], 0.5]
+    gen_a = None
+    if first == 'disk':
+        gen_a = build(['circle', 2.5 * D, None])[0]            # polar grid: radius shortcut, no conversion
+    elif first == 'converting':
+        gen_a = build(conv)[0]                                  # polar grid: as_('cartesian')
+    elif first == 'same':
+        gen_a = gen_b
+    try:
+        if first == 'as':
+            g.as_(other)
+        elif gen_a is not None:
+            a1, err, _ = evaluate(gen_a, g)
+            if err is not None:
+                ctx.violation('%s:raises:%s:%s' % (label if first == 'same' else 'first', rep_class(rep), err),
+                              'the first evaluation (%s) raises %s on a fresh %s grid' % (first, err, rep), case)
+                return nothing
+        # --- the in-place operations
+        px, py = current_xy(g)
+        for op in ops:
+            try:
+                with warnings.catch_warnings():
+                    warnings.simplefilter('ignore')
+                    px, py = apply_iop(g, op, px, py)
+            except MachineryError:
+                raise
+            except Exception as e:                              # noqa  (the operation itself is not this property's business)
+                ctx.count('inplace-op-raises:%s:%s:%s' % (op[0], rep, type(e).__name__))
+                return nothing
+        cx, cy = current_xy(g)
+    except MachineryError:
+        raise
+    except Exception as e:                                      # noqa
+        ctx.violation('grid:inplace-raises:%s:%s' % (rep, type(e).__name__), 'reading the coordinates of a %s grid after %s raises %s' % (rep, opname, type(e).__name__), case)
+        return nothing
+    scale = scale_of(cx, cy, size)
+    tol = REL_TOL * scale
+    if len(cx) != len(px) or np.abs(cx - px).max() > 1e-9 * scale or np.abs(cy - py).max() > 1e-9 * scale:
+        ctx.violation('grid:inplace-points:%s:%s' % (opname, rep), 'after %s on a %s grid (first use: %s) the points are not the transformed points' % (opname, rep, first), case)
+    # --- the second use: the values belong to the CURRENT points
+    materialise_weights(g)
+    before = snapshot(g)
+    vals, err, attached = evaluate(gen_b, g)
+    if snapshot(g) != before:
+        ctx.violation('%s:grid-modified:%s' % (label, rep_class(rep)), '%s: the %s grid is not bit-identical after the evaluation (history: %s, %s)' % (label, rep, first, opname), case)
+    fresh = clone_fresh(g)
+    ref, err_f, _ = evaluate(gen_b, fresh)
+    import hcipy
+    cart = hcipy.CartesianGrid(hcipy.UnstructuredCoords([cx.copy(), cy.copy()]))
+    cref, err_c, _ = evaluate(gen_b, cart)
+    ctx.count('inplace:' + rep)
+    ctx.count('inplace-op:' + opname)
+    ctx.count('inplace-first:' + first)
+    ctx.count('inplace-cover:%s|%s|%s' % (rep, opname, first))
+    ctx.count('inplace-maker:%s|%s' % (label, rep))
+    ctx.count('inplace-maker-op:%s|%s' % (label, opname))
+    what_hist = 'grid object used before (%s), then %s in place' % (first, opname)
+    if err is not None:
+        if err_f is None or err_c is None:
+            ctx.violation('%s:raises:%s:%s' % (label, rep_class(rep), err), '%s raises %s on a %s %s' % (label, err, rep, what_hist), case)
+        return nothing
+    if not attached:
+        ctx.violation('%s:not-attached' % label, '%s: the returned field is not attached to the %s grid it was asked for' % (label, rep), case)
+    if binary and (vals.min() < 0 or vals.max() > 1):
+        ctx.violation('%s:range' % label, '%s leaves [0,1] on a %s grid' % (label, rep), case)
+    if ref is not None and not np.array_equal(vals, ref):
+        d = np.flatnonzero(vals != ref)
+        i = int(d[0])
+        ctx.violation('%s:inplace-history:%s:%s' % (label, opname, rep),
+                      '%s: on a %s %s, the value at point %d = (%r, %r) is %r, but %r on a new grid object with the same current coordinates (%d of %d points differ)' % (
+                          label, rep, what_hist, i, float(cx[i]), float(cy[i]), float(vals[i]), float(ref[i]), len(d), len(vals)), case)
+    if cref is not None:
+        d = [int(i) for i in np.flatnonzero(np.abs(vals - cref) > 1e-12)[:12]]
+        genuine = []
+        for i in d:
+            if on_boundary(gen_b, cx[i], cy[i], tol):
+                ctx.boundary_skipped += 1
+                ctx.count('oracle-boundary-skipped')
+            else:
+                genuine.append(i)
+        if genuine:
+            i = genuine[0]
+            ctx.violation('%s:inplace-differs:%s:%s' % (label, opname, rep),
+                          '%s: on a %s %s, the value at the current point %d = (%r, %r) is %r but %r on an unstructured Cartesian grid of the current points' % (
+                              label, rep, what_hist, i, float(cx[i]), float(cy[i]), float(vals[i]), float(cref[i])), case)
+    # the first maker once more on the same object: the values of the current points again
+    if gen_a is not None and gen_a is not gen_b:
+        a2, _, _ = evaluate(gen_a, g)
+        a0, _, _ = evaluate(gen_a, fresh)
+        if (a2 is None) != (a0 is None) or (a2 is not None and not np.array_equal(a2, a0)):
+            ctx.violation('first:inplace-history:%s:%s' % (opname, rep), 'the maker of the first use (%s) evaluated again on the %s %s differs from a new grid object with the same coordinates' % (first, rep, what_hist), case)
+    # conversions of the object follow the current coordinates
+    try:
+        # (positions, not bits: NumPy's hypot/arctan2/cos/sin may round differently on a reversed view and on a copy)
+        (ox, oy), (fx, fy) = current_xy(g.as_(other)), current_xy(fresh.as_(other))
+        same = len(ox) == len(cx) and max(np.abs(ox - fx).max(), np.abs(oy - fy).max(), np.abs(ox - cx).max(), np.abs(oy - cy).max()) <= 1e-9 * scale
+    except Exception as e:                                      # noqa
+        same = True
+        ctx.count('inplace-as-raises:%s' % type(e).__name__)
+    if not same:
+        ctx.violation('grid:as-stale:%s:%s' % (opname, rep), 'as_(%r) of a %s %s is not the conversion of its current coordinates' % (other, rep, what_hist), case)
+    mixed = 0 < np.count_nonzero(vals) < len(vals)
+    ctx.case({'grid': ispec, 'ops': ops, 'shape': bspec} if mixed else None, ('inplace', label, rep, opname, first, len(vals), int(np.count_nonzero(vals))) if mixed else None)
+    if not want_model or toks is None:
+        return nothing
+    # the model: the history itself (`evalAfter`, Model/ApertureHistory.lean) where it is rational, else the point
+    # predicate at the current points
+    polar = rep.startswith('polar')
+    expressible = not (polar and any(o[0] == 'shift' or (o[0] == 'scale' and isinstance(o[1], list)) for o in ops))
+    if expressible:
+        mops = []
+        for o in ops:
+            if o[0] == 'scale':
+                sx, sy = o[1] if isinstance(o[1], list) else (o[1], o[1])
+                mops.append('scale:%s:%s' % (rat(sx), rat(sy)))
+            elif o[0] == 'shift':
+                mops.append('shift:%s:%s' % (rat(o[1][0]), rat(o[1][1])))
+            elif o[0] == 'rotate':
+                mops.append('rot:%s:%s' % (rat(float(np.cos(o[1]))), rat(float(np.sin(o[1])))))
+            else:
+                mops.append(o[0])
+        if polar:
+            cs = np.empty(2 * len(init[0]))
+            cs[0::2] = np.cos(init[1])
+            cs[1::2] = np.sin(init[1])
+            coords = '%s %s' % (rat_list(init[0]), rat_list(cs))
+        else:
+            coords = '%s %s' % (rat_list(init[0]), rat_list(init[1]))
+        req = 'C12 hist %s %s %s %s %s' % ('polar' if polar else 'cart', rat(tol), coords, ';'.join(mops) or '-', ' '.join(toks))
+        ctx.count('inplace-model:history')
+    else:
+        req = 'C12 eval pts %s %s %s %s' % (rat(tol), rat_list(cx), rat_list(cy), ' '.join(toks))
+        ctx.count('inplace-model:current-points-only')
+
+    def check(resp):
+        parts = resp.split(' ')
+        if parts[0] != 'ok':
+            ctx.disagree('C12 inplace', {'case': case, 'model': resp[:80]})
+            return
+        mv, near = _rats(parts[1]), _bits(parts[2])
+        ctx.traces_validated += 1
+        if parts[3] != '1':
+            ctx.disagree('C12 model-self', {'case': case, 'detail': 'code-path model on the object differs from point semantics'})
+        if len(mv) != len(vals):
+            ctx.disagree('C12 inplace', {'case': case, 'detail': 'length', 'model': len(mv), 'impl': len(vals)})
+            return
+        if expressible:
+            mp = np.array([float(t) for t in _rats(parts[4])])
+            if len(mp) != 2 * len(cx) or max(np.abs(mp[0::2] - cx).max(), np.abs(mp[1::2] - cy).max()) > 1e-9 * scale:
+                ctx.disagree('C12 inplace', {'case': case, 'detail': 'the points of the object after the history differ from the model'},
+                             key='grid:inplace-model-points:%s:%s' % (opname, rep))
+                return
+        for i in range(len(vals)):
+            if near[i]:
+                ctx.boundary_skipped += 1
+                ctx.count('model-boundary-skipped')
+                continue
+            ctx.count('points-compared')
+            ctx.count('inplace-points-compared')
+            if abs(float(mv[i]) - vals[i]) > 1e-9:
+                ctx.disagree('C12 inplace', {'case': case, 'index': i, 'point': [float(cx[i]), float(cy[i])], 'model': float(mv[i]), 'impl': float(vals[i])},
+                             key='%s:inplace-model:%s:%s' % (label, opname, rep))
+                break
+    return req, check
+
+
+def run_inplace(ctx):
+    rng = ctx.rng
+    jobs = []
+    off = int(rng.integers(0, len(SWEEP_MAKERS)))
+    k = 0
+    for _ in range(ctx.scale(1, 6)):
+        for rep in INPLACE_REPS:
+            for opname in INPLACE_OPS:
+                for first in INPLACE_FIRST:
+                    if ctx.quick() and first == 'none' and opname != 'none' and (k % 2):
+                        k += 1
+                        continue                    # quick tier: the control (no first use) for every second operation only
+                    mk = SWEEP_MAKERS[(off + k) % len(SWEEP_MAKERS)]
+                    k += 1
+                    ispec = gen_igrid(rng, rep)
+                    n = build_igrid(ispec).size
+                    jobs.append((ispec, first, gen_iops(rng, opname, rep.startswith('polar'), n), mk(rng), opname))
+    # every maker x every basic operation with the maker ITSELF as the first use (state remembered by a helper that only
+    # one maker calls), on every polar storage and (quick: one, thorough: every) Cartesian storage; operation 'none' on the
+    # separated / regular polar storages also guards helpers that look at is_separated before the coordinate system
+    basic = ('none', 'scale', 'shift', 'rotate', 'reverse', 'weights-array')
+    for mi, mk in enumerate(SWEEP_MAKERS):
+        for oi, opname in enumerate(basic):
+            for ri, rep in enumerate(INPLACE_REPS):
+                if ctx.quick() and rep.startswith('cart') and ri != (mi + oi) % 3 and opname not in ('shift', 'reverse'):
+                    continue
+                ispec = gen_igrid(rng, rep)
+                n = build_igrid(ispec).size
+                jobs.append((ispec, 'same', gen_iops(rng, opname, rep.startswith('polar'), n), mk(rng), opname))
+    # telescope pupils on one grid object with a history
+    for pi, (name, kw) in enumerate(INPLACE_PUPILS):
+        for ri, rep in enumerate(INPLACE_REPS):
+            for j in range(ctx.scale(1, 4)):
+                opname = ('reverse', 'rotate+reverse', 'shift', 'scale+reverse', 'weights-array', 'scale-xy', 'reverse+shift')[(pi + ri + j) % 7]
+                first = ('same', 'converting', 'same', 'as')[(pi + ri + j) % 4]
+                ispec = gen_igrid(rng, rep, half=0.55 * PUPIL_DIAMETER[name])
+                n = build_igrid(ispec).size
+                jobs.append((ispec, first, gen_iops(rng, opname, rep.startswith('polar'), n, unit=PUPIL_DIAMETER[name] / 4.0), ['pupil', name, kw], opname))
+    lines, checks = [], []
+    for ispec, first, ops, bspec, opname in jobs:
+        req, chk = run_inplace_case(ctx, ispec, first, ops, bspec, opname=opname)
+        if req is not None:
+            lines.append(req)
+            checks.append(chk)
+    out = ctx.model(lines) if lines else []
+    for chk, resp in zip(checks, out):
+        chk(resp)
+    # coverage assertions: every (representation, operation, first-use) combination and every maker on every representation
+    for rep in INPLACE_REPS:
+        for opname in INPLACE_OPS:
+            for first in INPLACE_FIRST:
+                if first == 'none' and opname != 'none' and ctx.quick():
+                    continue
+                if not ctx.dist.get('inplace-cover:%s|%s|%s' % (rep, opname, first), 0) and not any(
+                        k.startswith('inplace-op-raises:') and k.split(':')[2] == rep for k in ctx.dist):
+                    raise MachineryError('in-place history: %s / %s / first use %s was never run' % (rep, opname, first))
+    ctx.extra['inplace_history'] = {
+        'cases': len(jobs), 'model_requests': len(lines),
+        'by_representation': {r: ctx.dist.get('inplace:' + r, 0) for r in INPLACE_REPS},
+        'by_operation': {o: ctx.dist.get('inplace-op:' + o, 0) for o in INPLACE_OPS},
+        'by_first_use': {f: ctx.dist.get('inplace-first:' + f, 0) for f in INPLACE_FIRST},
+        'operation_raises': {k[len('inplace-op-raises:'):]: v for k, v in ctx.dist.items() if k.startswith('inplace-op-raises:')},
+    }
+
+
 def check_hexqr(ctx):
     """the model's integer ring arithmetic against make_hexagonal_grid (exact: q, r recovered from the positions)"""
     import hcipy
@@ -2426,6 +2806,35 @@ def check_hexqr(ctx):
         ctx.traces_validated += 1
         if out != 'ok ' + ';'.join(qr):
             ctx.disagree('C12 hexqr', {'rings': rings, 'model': out[:200], 'impl': ';'.join(qr)[:200]})
+
+
+def check_hexcount(ctx):
+    """the concrete constants of Model/ApertureTelescopes.lean (theorems luvoir_a_keeps_120_segments, luvoir_b_keeps_55_segments)
+    against the NumPy expressions of the makers, and the proved counts against the segments the real makers return"""
+    import hcipy.aperture.realistic as rl
+    from fractions import Fraction
+    for short, name, proved in (('luvoir_a', 'make_luvoir_a_aperture', 120), ('luvoir_b', 'make_luvoir_b_aperture', 55)):
+        cfg = hexpupil_cfg(name, {})
+        out = ctx.model(['C12 hexcount ' + short])[0].split(' ')
+        ctx.traces_validated += 1
+        try:
+            with warnings.catch_warnings():
+                warnings.simplefilter('ignore')
+                nreal = len(getattr(rl, name)(return_segments=True)[1])
+        except Exception as e:                                  # noqa
+            ctx.disagree('C12 hexcount', {'name': name, 'detail': 'the maker raises %s' % type(e).__name__})
+            continue
+        want = [Fraction(float(cfg['pitch'])), Fraction(float(cfg['pitch'] * np.sqrt(3) / 4))] + [_frac(sel[-1]) for sel in cfg['sels']]
+        try:
+            got = [_frac(out[3]), _frac(out[4])] + [_frac(t) for t in out[5][1:-1].split(',')]
+            ok = out[0] == 'ok' and int(out[1]) == proved and int(out[2]) == cfg['rings'] and got == want
+        except Exception:                                       # noqa
+            ok = False
+        if not ok:
+            ctx.disagree('C12 hexcount', {'name': name, 'model': ' '.join(out)[:300], 'detail': 'constants of the model differ from the maker\'s expressions'})
+        if nreal != proved:
+            ctx.disagree('C12 hexcount', {'name': name, 'proved': proved, 'impl': nreal}, key='pupil:%s:segment-count' % name[5:])
+        ctx.count('hexcount-checked')
 
 
 # ---------------------------------------------------------------------------------------------
@@ -2556,11 +2965,13 @@ def run(ctx):
                 checks.append((len(lines), len(l), chk))
                 lines += l
     check_hexqr(ctx)
+    check_hexcount(ctx)
     run_super_errors(ctx)
     run_super_stats(ctx)
     run_super_lists(ctx)
     run_negative_diameter(ctx)
     run_exact_boundary(ctx)
+    run_inplace(ctx)
     out = ctx.model(lines)
     for base, cnt, chk in checks:
         chk(out[base:base + cnt])
@@ -2661,6 +3072,8 @@ def replay(ctx, case):
         super_list_case(ctx, case['grid'], case['shapes'], case['over'], case['stat'], case['sparse'], want_model=False)
     elif case.get('kind') == 'super-stat':
         super_stat_case(ctx, case['grid'], case['shape'], case['over'], want_model=False)
+    elif case.get('kind') == 'inplace':
+        run_inplace_case(ctx, case['grid'], case['first'], case['ops'], case['shape'], want_model=False, opname=case.get('opname'))
     elif case.get('kind') == 'pupil':
         run_pupil(ctx, case['name'], case['kw'], case['gseed'], case.get('over'), case.get('fam'), case.get('gspec_fixed'))
     else:
